@@ -124,6 +124,84 @@ theorem solution_unique (o : Op K) (hnr : 4 ≤ o.nr) (hnt : 2 ≤ o.nt) (heven 
     ∀ i j, i < o.nr → j < o.nt → x i j = y i j :=
   give_take_same o (A_injective o hnr hnt heven hbc he) f x y hx hy
 
+/-! ## 4  Dirichlet case: the pivot hypothesis of `solve_inverts` is a theorem -/
+
+/-- Dirichlet inner boundary + elliptic data: every leading principal block of the direct solver's matrix
+    (row-major numbering) is injective (`A_injective_on` with the node set `{(i, j) | i·nt + j ≤ k}`) -/
+theorem leading_injective_dirichlet (o : Op K) (hnr : 4 ≤ o.nr) (hnt : 2 ≤ o.nt) (heven : o.nt % 2 = 0)
+    (hbc : o.bc = true) (he : Elliptic o) (M : CSR K) (hrows : M.rows = o.nr * o.nt)
+    (hM : ∀ i j s t, i < o.nr → j < o.nt → s < o.nr → t < o.nt →
+      toDense M (i * o.nt + j) (s * o.nt + t) = opEntry o i j s t) :
+    ∀ k, k < M.rows → ∀ x : ℕ → K,
+      (∀ i, i ≤ k → ∑ m ∈ range (k + 1), toDense M i m * x m = 0) → ∀ m, m ≤ k → x m = 0 := by
+  intro k hk x hx
+  set x' : ℕ → K := fun q => if q ≤ k then x q else 0 with hx'
+  have hgrid := A_injective_on o hnr hnt heven hbc he (fun i j => i * o.nt + j ≤ k)
+    (fun i j => x' (i * o.nt + j))
+    (fun i j _ _ hS => by simp only [hx']; rw [if_neg hS])
+    (fun i j hi hj hS => by
+      rw [A_expand o (by omega) (by omega) _ i j hi hj]
+      have h1 : ∑ s ∈ range o.nr, ∑ t ∈ range o.nt, opEntry o i j s t * x' (s * o.nt + t)
+          = ∑ q ∈ range (o.nr * o.nt), toDense M (i * o.nt + j) q * x' q := by
+        rw [sum_range_mul]
+        apply sum_congr rfl; intro s hs'
+        apply sum_congr rfl; intro t ht'
+        rw [hM i j s t hi hj (by simpa using hs') (by simpa using ht')]
+      rw [h1, ← hx (i * o.nt + j) hS]
+      symm
+      have hsub : range (k + 1) ⊆ range (o.nr * o.nt) := by
+        intro q hq; simp at hq ⊢; omega
+      rw [← Finset.sum_subset hsub (f := fun q => toDense M (i * o.nt + j) q * x' q)]
+      · apply sum_congr rfl
+        intro q hq
+        have : q ≤ k := by have := Finset.mem_range.mp hq; omega
+        simp only [hx', if_pos this]
+      · intro q _ hq
+        have : ¬ q ≤ k := by simp at hq; omega
+        simp only [hx', if_neg this, mul_zero])
+  intro m hm
+  have hmlt : m < o.nt * o.nr := by rw [Nat.mul_comm]; omega
+  have hdiv : m / o.nt < o.nr := Nat.div_lt_of_lt_mul hmlt
+  have hmod : m % o.nt < o.nt := Nat.mod_lt _ (by omega)
+  have := hgrid (m / o.nt) (m % o.nt) hdiv hmod
+  rw [Nat.div_add_mod' m o.nt] at this
+  simp only [hx', if_pos hm] at this
+  exact this
+
+/-- Dirichlet inner boundary + elliptic data: the matrix of the direct solver (row-major numbering) has no
+    zero pivot — the elimination without pivoting of `sparseLUSolver.h` never divides by zero -/
+theorem pivots_dirichlet (o : Op K) (hnr : 4 ≤ o.nr) (hnt : 2 ≤ o.nt) (heven : o.nt % 2 = 0)
+    (hbc : o.bc = true) (he : Elliptic o) (M : CSR K) (hrows : M.rows = o.nr * o.nt)
+    (hM : ∀ i j s t, i < o.nr → j < o.nt → s < o.nr → t < o.nt →
+      toDense M (i * o.nt + j) (s * o.nt + t) = opEntry o i j s t) :
+    ∀ r, r < M.rows → den ((factorRows M).2.getD r []) r ≠ 0 :=
+  C16.pivots_of_leading_injective M (leading_injective_dirichlet o hnr hnt heven hbc he M hrows hM)
+
+/-- … hence `solve_inverts` without the pivot hypothesis -/
+theorem solve_inverts_dirichlet (o : Op K) (hnr : 4 ≤ o.nr) (hnt : 2 ≤ o.nt) (heven : o.nt % 2 = 0)
+    (hbc : o.bc = true) (he : Elliptic o) (tiny : K → Bool) (M : CSR K) (hrows : M.rows = o.nr * o.nt)
+    (hM : ∀ i j s t, i < o.nr → j < o.nt → s < o.nr → t < o.nt →
+      toDense M (i * o.nt + j) (s * o.nt + t) = opEntry o i j s t)
+    (b xv : List K) (hb : b.length = M.rows) (hs : solve tiny (factorRows M) b = some xv) :
+    ∀ i j, i < o.nr → j < o.nt →
+      take o (fun i j => vget b (i * o.nt + j)) (fun i j => vget xv (i * o.nt + j)) i j = 0 :=
+  solve_inverts o (by omega) (by omega) tiny M hrows hM
+    (pivots_dirichlet o hnr hnt heven hbc he M hrows hM) b xv hb hs
+
+/-- … and the solve returns (no `std::exit`) as soon as no pivot passes the `tiny` test; what it returns is
+    THE solution (`solution_unique`) -/
+theorem solve_total_dirichlet (o : Op K) (hnr : 4 ≤ o.nr) (hnt : 2 ≤ o.nt) (heven : o.nt % 2 = 0)
+    (hbc : o.bc = true) (he : Elliptic o) (tiny : K → Bool) (M : CSR K) (hrows : M.rows = o.nr * o.nt)
+    (hM : ∀ i j s t, i < o.nr → j < o.nt → s < o.nr → t < o.nt →
+      toDense M (i * o.nt + j) (s * o.nt + t) = opEntry o i j s t)
+    (ht : ∀ r, r < M.rows → tiny (den ((factorRows M).2.getD r []) r) = false)
+    (b : List K) (hb : b.length = M.rows) :
+    ∃ xv, solve tiny (factorRows M) b = some xv ∧ ∀ i j, i < o.nr → j < o.nt →
+      take o (fun i j => vget b (i * o.nt + j)) (fun i j => vget xv (i * o.nt + j)) i j = 0 := by
+  obtain ⟨xv, hxv, _⟩ := C16.lu_solve_total tiny M
+    (pivots_dirichlet o hnr hnt heven hbc he M hrows hM) ht b hb
+  exact ⟨xv, hxv, solve_inverts_dirichlet o hnr hnt heven hbc he tiny M hrows hM b xv hb hxv⟩
+
 end Ordered
 
 /-! ## non-vacuity -/
@@ -161,5 +239,39 @@ example : ∃ xv, solve (fun _ => false) (factorRows (csrOf C05.exOpD)) exB = so
   obtain ⟨xv, hxv⟩ := Option.isSome_iff_exists.mp h4
   exact ⟨xv, hxv, solve_inverts C05.exOpD (by decide) (by decide) _ (csrOf C05.exOpD) h1
     (fun i j s t hi hj hs ht => h2 i hi j hj s hs t ht) h3 exB xv rfl hxv⟩
+
+/-- `C05.exOpD` is elliptic (same proof as the anonymous example of C05) -/
+theorem exOpD_elliptic : Elliptic C05.exOpD where
+  h_pos := fun i _ => by simp only [C05.exOpD]; positivity
+  k_pos := fun j _ => by simp only [C05.exOpD]; positivity
+  arr_pos := fun i j _ _ => by simp only [C05.exOpD]; positivity
+  att_pos := fun i j _ _ => by simp only [C05.exOpD]; positivity
+  art_le := fun i j _ _ => by
+    simp only [C05.exOpD]
+    have hi : (0 : ℚ) ≤ i := Nat.cast_nonneg i
+    have hj : (0 : ℚ) ≤ j := Nat.cast_nonneg j
+    nlinarith [mul_nonneg hi hj, mul_nonneg (mul_nonneg hi hj) hi, mul_nonneg (mul_nonneg hi hj) hj]
+  beta_nonneg := fun i _ => by simp only [C05.exOpD]; positivity
+  det_nonneg := fun i j _ _ => by simp only [C05.exOpD]; positivity
+
+/-- `pivots_dirichlet` / `solve_inverts_dirichlet` are not vacuous: for the assembled 16×16 system of
+    `C05.exOpD` every hypothesis holds; the 16 pivots are non-zero BY THE THEOREM (not by evaluation), the
+    solve returns, and the returned field has zero residual at all 16 nodes -/
+example : (∀ r, r < 16 → den ((factorRows (csrOf C05.exOpD)).2.getD r []) r ≠ 0) ∧
+    ∃ xv, solve (fun _ => false) (factorRows (csrOf C05.exOpD)) exB = some xv ∧
+    ∀ i j, i < 4 → j < 4 →
+      take C05.exOpD (fun i j => vget exB (i * 4 + j)) (fun i j => vget xv (i * 4 + j)) i j = 0 := by
+  have h : (csrOf C05.exOpD).rows = 4 * 4 ∧
+      (∀ i, i < 4 → ∀ j, j < 4 → ∀ s, s < 4 → ∀ t, t < 4 →
+        toDense (csrOf C05.exOpD) (i * 4 + j) (s * 4 + t) = opEntry C05.exOpD i j s t) := by
+    decide +kernel
+  obtain ⟨h1, h2⟩ := h
+  have hM : ∀ i j s t, i < 4 → j < 4 → s < 4 → t < 4 →
+      toDense (csrOf C05.exOpD) (i * 4 + j) (s * 4 + t) = opEntry C05.exOpD i j s t :=
+    fun i j s t hi hj hs ht => h2 i hi j hj s hs t ht
+  exact ⟨pivots_dirichlet C05.exOpD (by decide) (by decide) (by decide) rfl exOpD_elliptic
+      (csrOf C05.exOpD) h1 hM,
+    solve_total_dirichlet C05.exOpD (by decide) (by decide) (by decide) rfl exOpD_elliptic
+      (fun _ => false) (csrOf C05.exOpD) h1 hM (fun _ _ => rfl) exB rfl⟩
 
 end C04
